@@ -84,14 +84,18 @@ def run(E: Engine, rep: Report, tier: str) -> dict:
     # conflict test
     ok_conf = False
     ok_skip = False
+    # the innermost loop variable is the slot being examined
+    inner_vars = [n.target.id for n in own_nodes(fad) if isinstance(n, ast.For) and isinstance(n.target, ast.Name)]
     for n in own_nodes(fad):
         if isinstance(n, ast.BoolOp) and isinstance(n.op, ast.Or) and len(n.values) == 2:
             a, b = n.values
-            if isinstance(a, ast.BinOp) and isinstance(a.op, ast.BitAnd) and "targets" in norm(a.left) and "targets" in norm(a.right) and norm(b).replace('"', "'") == "protocol == 'wait-for-all'":
-                ok_conf = True
+            if isinstance(a, ast.BinOp) and isinstance(a.op, ast.BitAnd) and norm(b).replace('"', "'") == "protocol == 'wait-for-all'":
+                sides = {norm(a.left).replace(" ", ""), norm(a.right).replace(" ", "")}
+                examined = {f"{v}.targets" for v in inner_vars}
+                ok_conf = bool(sides & examined) and "self[channel][-1].targets" in sides
         if isinstance(n, ast.If) and norm(n.test) == "ch == channel" and isinstance(n.body[0], ast.Continue):
             ok_skip = True
-    rep.check(ok_conf, "GUARD", "_find_add_delay|conflict=overlap-or-wait-for-all", "conflict iff target sets overlap or protocol == 'wait-for-all'", "the conflict test is no longer `op.targets & own targets or protocol == 'wait-for-all'`", E.where(fad))
+    rep.check(ok_conf, "GUARD", "_find_add_delay|conflict=overlap-or-wait-for-all", "conflict iff the examined slot's targets overlap the new pulse's targets, or protocol == 'wait-for-all'", "the conflict test is no longer `<examined slot>.targets & self[channel][-1].targets or protocol == 'wait-for-all'` (it must compare the targets the other pulse had, not the other channel's current targets)", E.where(fad))
     rep.check(ok_skip, "GUARD", "_find_add_delay|skips-own-channel", "the channel itself is skipped", "the scan no longer skips the channel the pulse is added to", E.where(fad))
     for f in (add, est):
         rep.check(must_pass(E, f, vap), "GUARD", f"{f.short}|validates-protocol", "_validate_add_protocol on every path", f"{f.short} can proceed without validating the protocol", E.where(f))
@@ -124,7 +128,23 @@ def run(E: Engine, rep: Report, tier: str) -> dict:
         if isinstance(n, ast.Call) and (dotted(n.func) or "") == "max" and any(isinstance(a, ast.Starred) and norm(a.value) == "phase_barrier_ts" for a in n.args):
             okb = True
     rep.check(okb, "FLOW", "make_next_pulse_slot|start>=phase-barriers", "current_max_t = max(t0, *phase_barrier_ts)", "the phase-shift barriers no longer bound the start time from below", E.where(mn))
-    rep.floor("FLOW", 5)
+    # Pulse.fall_time: both waveforms contribute their END buffer, combined by max, plus the rise time
+    pft = E.fn("pulser.pulse.Pulse.fall_time")
+    mx = [n for n in own_nodes(pft) if isinstance(n, ast.Call) and (dotted(n.func) or "") == "max" and len(n.args) == 2]
+    ok = False
+    if mx:
+        a, b = mx[0].args
+        ta, tb = norm(a).replace("self.amplitude", "W"), norm(b).replace("self.detuning", "W")
+        both_end = all(isinstance(x, ast.Subscript) and isinstance(x.slice, ast.Constant) and x.slice.value == 1 and "modulation_buffers" in norm(x.value) for x in (a, b))
+        ok = ta == tb and both_end and "self.amplitude" in norm(a) and "self.detuning" in norm(b)
+    rep.check(ok, "FLOW", "Pulse.fall_time|max-of-both-end-buffers", "fall time uses the END modulation buffer ([1]) of both the amplitude and the detuning, combined by max", f"Pulse.fall_time combines {[norm(x) for x in (mx[0].args if mx else [])]}: amplitude and detuning must both contribute their end buffer", E.where(pft))
+    ret = returns(pft)
+    v = av(E, pft, ret[0].value) if ret else None
+    rep.check(v is not None and "Add" in v.tags and any(r.endswith("rise_time") for r in v.roots), "FLOW", "Pulse.fall_time|plus-rise_time", "fall time = rise time + end buffer", "Pulse.fall_time no longer adds the rise time", E.where(pft))
+    from .c10 import _lookback
+
+    _lookback(E, rep)
+    rep.floor("FLOW", 7)
 
     # -------------------------------------------------------------- ALIGN
     al = E.method(SEQ, "align")
